@@ -53,6 +53,9 @@ func genComponentFile(c *core.Ctx, idx int) (compDef, []model.Stmt) {
 	}
 	tag := strings.ToUpper(def.name[strings.LastIndex(def.name, "/")+1:])
 	stmts := []model.Stmt{model.Text{S: "<" + tag + " "}}
+	if r.Intn(5) == 0 {
+		stmts = []model.Stmt{model.Text{S: "<" + tag + " style=\"width: 100%; %d%s\" "}}
+	}
 	if r.Intn(6) == 0 {
 		// the file begins with bytes editors like to add or drop: they are text of the component like any other
 		stmts = []model.Stmt{model.Text{S: []string{"\ufeff", "\ufeff\ufeff", "\n", "\r\n", " ", "\t"}[r.Intn(6)] + "<" + tag + " "}}
@@ -301,6 +304,16 @@ func init() {
 							if why := compare(exp, got, true, ev); why != "" {
 								c.Violation("component-render:"+scopeFailureClass(exp, got), why, map[string]any{"files": describeFiles(files), "page": page, "data": model.DescribeData(data), "expected": expectText(exp)})
 							}
+							// Response writes the same page
+							if !got.Failed() {
+								rec := newRecorder()
+								var rerr error
+								c.Eval(1)
+								if !c.Guard(func() { rerr = tpl.Response(rec, page, model.NativeData(data)) }) && (rerr != nil || rec.body.String() != got.Out) {
+									c.Violation("component-render:response-differs", fmt.Sprintf("Response wrote %q (error %v), String gives %q", clipS(rec.body.String(), 300), rerr, clipS(got.Out, 300)), map[string]any{"files": describeFiles(files), "page": page})
+								}
+								traceReset()
+							}
 							c.Count("page_renders_compared", 1)
 							c.Count("tracer_events_expected", len(exp.Events))
 						}
@@ -436,6 +449,19 @@ func init() {
 					if !got.Panicked && (got.Err != nil || got.Out != want) {
 						c.Violation("large-files", fmt.Sprintf("files of about %d bytes: the page rendered %d bytes (error %v), want %d bytes ending in %q", size, len(got.Out), got.Err, len(want), want[len(want)-40:]), map[string]any{"file_bytes_about": size})
 					}
+				}},
+				// pages of one loaded Template rendered one after the other without data: a use sees the arguments and the
+				// surrounding variables of its own render only
+				{Name: "data-less-renders-of-one-template", Exhaustive: true, N: 2, Run: func(c *core.Ctx, i int) {
+					if i == 0 {
+						judgeDataLessSequence(c, "c07nil", map[string]string{"components/c.tw": "<{{ title }}>", "components/counter.tw": "[{{ title + 1 }}]", "a.tw": "{{ title = \"About us\" }}@component(\"~c\")",
+							"b.tw": "@component(\"~counter\", {title: 3})", "c.tw": "@component(\"~c\")", "d.tw": "@component(\"~c\", {title: \"own\"})@component(\"~c\")"},
+							[]dataLessStep{{"a", "<About us>", false}, {"b", "[4]", false}, {"c", "", true}, {"d", "", true}, {"a", "<About us>", false}, {"b", "[4]", false}}, "data-less")
+						return
+					}
+					judgeDataLessSequence(c, "c07nil", map[string]string{"components/box.tw": "{{ inside = 1 }}<@slot|{{ t }}>", "a.tw": "{{ t = \"page-t\" }}@component(\"~box\", {t: t + \"!\"})@slot{{ s = 5 }}{{ s }}@end@end{{ t }}",
+						"b.tw": "@component(\"~box\", {t: 2.5})@slot{{ s = \"str\" }}{{ s }}@end@end", "c.tw": "@component(\"~box\", {t: 1})@slot{{ s }}@end@end", "d.tw": "@component(\"~box\", {t: 1}){{ inside }}"},
+						[]dataLessStep{{"a", "<5|page-t!>page-t", false}, {"b", "<str|2.5>", false}, {"c", "", true}, {"d", "", true}, {"a", "<5|page-t!>page-t", false}}, "data-less")
 				}},
 				// text between a component's ")" and what follows is text unless it is plain whitespace before a @slot:
 				// whatever the rest renders to, these bytes must be in the output
